@@ -48,7 +48,7 @@ void vprop_init (int argc, char **argv)
  *  sse: 16 subsets of {SSE3,SSSE3,SSE4_1,SSE4_2} (SSE2 always)          x bits x fp x sj = 128
  *  avx: {AVX|AVX2, AVX only} x 4 subsets of {SSE4_1? no: SSSE3..} kept full              x 8 = 16
  *  mmx: 8 subsets of {MMXEXT,SSSE3,SSE4_1} (MMX always)                  x 8  = 64 */
-static int n_cfg (int t) { return t >= 3 ? 1 : t == 1 ? 128 : t == 0 ? 16 : 64; }
+static int n_cfg (int t) { return t >= 3 ? 1 : t == 1 ? 128 : t == 0 ? 16 : 128; }
 
 static unsigned cfg_flags (int t, int cfg, int *bits32, int *fp, int *sj, int *reduced)
 {
@@ -84,7 +84,8 @@ static unsigned cfg_flags (int t, int cfg, int *bits32, int *fp, int *sj, int *r
     if (feat & 1) f |= ORC_TARGET_MMX_MMXEXT;
     if (feat & 2) f |= ORC_TARGET_MMX_SSSE3;
     if (feat & 4) f |= ORC_TARGET_MMX_SSE4_1;
-    *reduced = feat != 7;
+    if (feat & 8) f |= ORC_TARGET_MMX_SSE4_2;
+    *reduced = feat != 15;
     if (!*bits32) f |= ORC_TARGET_MMX_64BIT;
     if (*fp) f |= ORC_TARGET_MMX_FRAME_POINTER;
     if (*sj) f |= ORC_TARGET_MMX_SHORT_JUMPS;
@@ -96,11 +97,11 @@ static unsigned cfg_flags (int t, int cfg, int *bits32, int *fp, int *sj, int *r
  * for every form one 32-bit/fp/sj variant chosen by a hash; thorough: everything */
 static uint64_t enum_prefix[260];
 static int enum_thorough;
-static const int quick_cfgs_per_target[3] = { 2 + 1, 16 + 2, 8 + 2 };
+static const int quick_cfgs_per_target[3] = { 2 + 1, 16 + 2, 16 + 2 };
 
 static int quick_cfg (int t, int k, uint64_t salt)
 {
-  int nfeat = t == 1 ? 16 : t == 0 ? 2 : 8;
+  int nfeat = t == 1 ? 16 : t == 0 ? 2 : 16;
   if (k < nfeat) return k << 3;                         /* 64-bit, no fp, no sj, feature subset k */
   /* extra variants with 32-bit / frame pointer / short jumps */
   {
